@@ -7,6 +7,7 @@ package control
 
 import (
 	"net/netip"
+	"strings"
 	"testing"
 	"testing/synctest"
 	"time"
@@ -24,12 +25,26 @@ func (w *c18World) c18AbsorbProbes(from int, at time.Time) {
 		if containsAnyC18(host) {
 			continue // stub fails both families: nothing is cached
 		}
-		switch w.probeTruth[c18BareName(host)] {
-		case "real4", "real6", "real46":
+		truth, ok := w.probeTruth[c18BareName(host)]
+		if !ok {
+			truth = "ee"
+		}
+		switch {
+		case strings.Contains(truth, "r"):
+			// at least one family really has a record: the name may be verified
 			w.verified[host] = true
 			delete(w.neg, host)
-		case "norecord":
-			w.neg[host] = at.Add(realDomainNegativeCacheTTL)
+			vkClass(c18UnitProbe, "probe_outcome_record_"+truth)
+		case truth == "ee":
+			vkClass(c18UnitProbe, "probe_outcome_failed")
+		default:
+			// no record from either family ("nn", or half-failed "ne"/"en"): never
+			// verified. Whether it is negatively cached does not matter for the
+			// target (the destination either way); the model notes it for "nn".
+			if truth == "nn" {
+				w.neg[host] = at.Add(realDomainNegativeCacheTTL)
+			}
+			vkClass(c18UnitProbe, "probe_outcome_norecord_"+truth)
 		}
 	}
 }
@@ -53,7 +68,7 @@ func TestC18_Probe(t *testing.T) {
 			*cleanup = append(*cleanup, func() { w.close(); resolveIp46ForRealDomainProbe = saved })
 			resolveIp46ForRealDomainProbe = w.c18StubResolver()
 			for _, n := range c18PoolNames {
-				w.probeTruth[n] = rapid.SampledFrom([]string{"real4", "real6", "real46", "norecord", "norecord", "error"}).Draw(rt, "truth")
+				w.probeTruth[n] = rapid.SampledFrom(c18ProbeOutcomes).Draw(rt, "truth")
 			}
 			ctr := 0
 			nops := rapid.IntRange(20, 50).Draw(rt, "nops")
@@ -88,7 +103,7 @@ func TestC18_Probe(t *testing.T) {
 					}
 				default:
 					n := rapid.SampledFrom(c18PoolNames).Draw(rt, "truth_name")
-					w.probeTruth[n] = rapid.SampledFrom([]string{"real4", "real6", "real46", "norecord", "error"}).Draw(rt, "truth")
+					w.probeTruth[n] = rapid.SampledFrom(c18ProbeOutcomes).Draw(rt, "truth")
 					vkClass(c18UnitProbe, "op_truth_change")
 				}
 			}
